@@ -994,6 +994,9 @@ def helix_awk(*args, **kwargs) -> HelixAwkwardArray:
             # a record OF coordinate lists must not broadcast against the list of position records
             pivot = ak.zip({"x": pivot.x, "y": pivot.y, "z": pivot.z}, with_name="Vector3D")
 
+        # the same for a position written as a record OF coordinate lists
+        position = ak.zip({"x": position.x, "y": position.y, "z": position.z}, with_name="Vector3D")
+
         # compute helix parameters
         kappa = charge / momentum.pt
         phi0 = (momentum.phi - np.pi / 2) % (2 * np.pi)
